@@ -9,3 +9,5 @@ import Xrfmv.Props.C12
 #print axioms Xrfmv.Props.C12.argmax_consistent
 #print axioms Xrfmv.Props.C12.predict_is_most_probable
 #print axioms Xrfmv.Props.C12.far_is_prior
+#print axioms Xrfmv.Props.C12.soft_tree_valid
+#print axioms Xrfmv.Props.C12.predict_proba_valid_built
